@@ -152,6 +152,9 @@ func (e *c05Env) oneTree(tree *c05Node, rng *vh.Rand, level int) error {
 		}
 		if cliBytes != nil {
 			e.routeTarIn(tree, srcDir, src, cliBytes)
+			if withModel {
+				e.routeTarShuffle(tree, srcDir, src, rng)
+			}
 			cat := e.scratch("fmt") + ".catar"
 			if err := os.WriteFile(cat, cliBytes, 0600); err == nil {
 				e.routeGnuTar(tree, srcDir, src, cat, level >= 2)
